@@ -248,6 +248,19 @@ def run_c09(chk, tier, seed):
             full_time = np.array([ee.sobolev_time(e, residual)[0] for e in elems])
             l2 = ee.estimate_weighted_l2(elems, residual, use_mp=False)
         n_eval += 3 * len(elems)
+        # a second residual on the SAME estimator object must give what a fresh estimator gives (no state carried between calls)
+        def residual2(t, x_hat, gamma):
+            P = gamma(np.asarray(x_hat))
+            return 0.7 - 0.2 * P[0] + 1.3 * np.asarray(t) * P[1] + 0.5 * np.asarray(t) ** 2
+        with quiet():
+            sob2 = ee.estimate_sobolev(elems, residual2, use_mp=False)
+            l22 = ee.estimate_weighted_l2(elems, residual2, use_mp=False)
+            ee_fresh = ErrorEstimator(mesh, N_poly=(11, 11, 17, 17))
+            sob2_f = ee_fresh.estimate_sobolev(elems, residual2, use_mp=False)
+            l22_f = ee_fresh.estimate_weighted_l2(elems, residual2, use_mp=False)
+        n_eval += 2 * len(elems)
+        results.append(("reused-estimator-equals-fresh-estimator/{}".format(curve),
+                        bool(np.all(sob2 == sob2_f) and np.all(l22 == l22_f)), dict(curve=curve)))
         rel = float(max(np.max(np.abs(sob[:, 1] - full_space) / np.maximum(np.abs(full_space), 1e-300)),
                         np.max(np.abs(sob[:, 0] - full_time) / np.maximum(np.abs(full_time), 1e-300))))
         results.append(("symmetry-shortcut-equals-full-evaluation/{}".format(curve), rel <= 1e-12, dict(curve=curve, max_rel=rel)))
